@@ -1,5 +1,6 @@
 (* C18 lemmas for callgrind: the reference reader (S_Callgrind.decode) follows the writer
-   (M_Callgrind.cg_lines) line by line: name tables stay in step, positions decode. *)
+   (M_Callgrind.cg_lines) line by line: name tables stay in step, positions decode.  The reader may
+   see each name through a view f (identity at the structured level, ltrim at the text level). *)
 From Coq Require Import Lia ZifyBool.
 From PV Require Import M_Callgrind S_Callgrind.
 Open Scope string_scope.
@@ -47,27 +48,46 @@ Proof.
     destruct (String.eqb y x); [f_equal; lia | reflexivity].
 Qed.
 
+(* the reader may see each written name through a view f (text level: leading blanks are lost) *)
+Definition map_ref (f : string -> string) (r : nref) : nref :=
+  match r with NEmpty => NEmpty | NDef k n => NDef k (f n) | NRef k => NRef k end.
+Definition map_line (f : string -> string) (l : cgline) : cgline :=
+  match l with
+  | GOb r => GOb (map_ref f r) | GFl r => GFl (map_ref f r) | GFn r => GFn (map_ref f r)
+  | GCfl r => GCfl (map_ref f r) | GCfn r => GCfn (map_ref f r)
+  | other => other
+  end.
+Definition fedge (f : string -> string) (e : cgedge) : cgedge :=
+  {| ce_file := f (ce_file e); ce_name := f (ce_name e); ce_addr := ce_addr e; ce_line := ce_line e; ce_cost := ce_cost e |}.
+Definition fnode (f : string -> string) (n : cgnode) : cgnode :=
+  {| cn_obj := f (cn_obj n); cn_file := f (cn_file n); cn_name := f (cn_name n);
+     cn_addr := cn_addr n; cn_line := cn_line n; cn_cost := cn_cost n; cn_out := map (fedge f) (cn_out n) |}.
+
+Section View.
+Variable f : string -> string.
+Hypothesis f_nil : f "" = "".
+
 (* the reader's table mirrors the writer's list of names *)
 Definition trel (names : list string) (t : tbl) : Prop :=
   (forall k, Z.of_nat (List.length names) < k -> tlookup t k = None) /\
-  (forall x k, index_of x names 1 = Some k -> tlookup t k = Some x).
+  (forall x k, index_of x names 1 = Some k -> tlookup t k = Some (f x)).
 
 Lemma trel_nil : trel [] [].
 Proof. split; [reflexivity | intros x k H; discriminate H]. Qed.
 
 Lemma cg_name_resolve : forall names t name,
   trel names t ->
-  exists t', resolve t (fst (cg_name names name)) = Some (name, t') /\ trel (snd (cg_name names name)) t'.
+  exists t', resolve t (map_ref f (fst (cg_name names name))) = Some (f name, t') /\ trel (snd (cg_name names name)) t'.
 Proof.
   intros names t name [I1 I2]. unfold cg_name.
   destruct (String.eqb_spec name "") as [E|NE].
-  - subst name. exists t. split; [reflexivity | split; assumption].
+  - subst name. exists t. simpl. rewrite f_nil. split; [reflexivity | split; assumption].
   - destruct (index_of name names 1) as [k|] eqn:EI; simpl.
     + exists t. rewrite (I2 _ _ EI). split; [reflexivity | split; assumption].
     + remember (Z.of_nat (List.length names) + 1) as n1 eqn:En1.
       assert (Hn1 : Z.of_nat (List.length names) < n1) by (clear - En1; lia).
       rewrite (I1 n1 Hn1).
-      exists ((n1, name) :: t). split; [reflexivity|]. split.
+      exists ((n1, f name) :: t). split; [reflexivity|]. split.
       * intros k Hid. rewrite app_length in Hid. simpl in Hid. simpl.
         assert (Hne : (n1 =? k) = false) by (clear - En1 Hid; lia).
         rewrite Hne. apply I1. clear - Hid. lia.
@@ -88,16 +108,16 @@ Qed.
 Definition Q (st : cgstate) (ds : dstate) : Prop :=
   exists tob tfl tfn, d_tabs ds = (tob, tfl, tfn) /\ trel (cs_obj st) tob /\ trel (cs_file st) tfl /\ trel (cs_name st) tfn.
 Definition at_node (n : cgnode) (ds : dstate) : Prop :=
-  d_cur ds = (cn_obj n, cn_file n, cn_name n) /\ d_pos ds = (cn_addr n, cn_line n) /\ d_pend ds = (None, None, None).
+  d_cur ds = (f (cn_obj n), f (cn_file n), f (cn_name n)) /\ d_pos ds = (cn_addr n, cn_line n) /\ d_pend ds = (None, None, None).
 
 Definition edge_ev (n : cgnode) (e : cgedge) : cgev :=
-  EvCall (cn_obj n) (cn_file n) (cn_name n) (ce_file e) (ce_name e) (ce_addr e) (ce_line e)
+  EvCall (f (cn_obj n)) (f (cn_file n)) (f (cn_name n)) (f (ce_file e)) (f (ce_name e)) (ce_addr e) (ce_line e)
          (cn_addr n) (cn_line n) (ce_cost e).
 
 Lemma edges_run : forall n base es st ds,
   Q st ds -> at_node n ds ->
   (forall e, In e es -> dpos (cn_addr n) (cg_addr base (ce_addr e)) = ce_addr e) ->
-  exists ds', drun ds (fst (cg_edges es st base)) = Some ds' /\ Q (snd (cg_edges es st base)) ds' /\ at_node n ds' /\
+  exists ds', drun ds (map (map_line f) (fst (cg_edges es st base))) = Some ds' /\ Q (snd (cg_edges es st base)) ds' /\ at_node n ds' /\
               d_out ds' = (rev (map (edge_ev n) es) ++ d_out ds)%list.
 Proof.
   intros n base es. induction es as [|e r IH]; intros st ds HQ HA Hpos.
@@ -143,9 +163,9 @@ Lemma header_run : forall st ds n,
     (let '(ro, objs) := cg_name (cs_obj st) (cn_obj n) in
      let '(rf, files) := cg_name (cs_file st) (cn_file n) in
      let '(rn, names) := cg_name (cs_name st) (cn_name n) in
-     drun ds [GBlank; GOb ro; GFl rf; GFn rn] = Some ds' /\
+     drun ds (map (map_line f) [GBlank; GOb ro; GFl rf; GFn rn]) = Some ds' /\
      st' = {| cs_obj := objs; cs_file := files; cs_name := names |}) /\
-    Q st' ds' /\ d_cur ds' = (cn_obj n, cn_file n, cn_name n) /\
+    Q st' ds' /\ d_cur ds' = (f (cn_obj n), f (cn_file n), f (cn_name n)) /\
     d_pend ds' = d_pend ds /\ d_pos ds' = d_pos ds /\ d_out ds' = d_out ds.
 Proof.
   intros st ds n [tob [tfl [tfn [Et [Ro [Rf Rn]]]]]].
@@ -184,13 +204,13 @@ Qed.
 Lemma nodes_run : forall ns st prev ds,
   Q st ds -> d_pend ds = (None, None, None) ->
   match prev with
-  | Some p => d_cur ds = (cn_obj p, cn_file p, cn_name p) /\ d_pos ds = (cn_addr p, cn_line p) /\
+  | Some p => d_cur ds = (f (cn_obj p), f (cn_file p), f (cn_name p)) /\ d_pos ds = (cn_addr p, cn_line p) /\
               addr_ok (cn_addr p) /\ in_F11_from p ns = false
   | None => in_F11 ns = false
   end ->
   nodes_addr_ok ns ->
-  exists ds', drun ds (cg_nodes ns st prev) = Some ds' /\
-              d_out ds' = (rev (expected_events ns) ++ d_out ds)%list.
+  exists ds', drun ds (map (map_line f) (cg_nodes ns st prev)) = Some ds' /\
+              d_out ds' = (rev (expected_events (map (fnode f) ns)) ++ d_out ds)%list.
 Proof.
   induction ns as [|n r IH]; intros st prev ds HQ Hpd Hprev Hok.
   - exists ds. split; reflexivity.
@@ -203,8 +223,8 @@ Proof.
                    let '(rf, files) := cg_name (cs_file st) (cn_file n) in
                    let '(rn, names) := cg_name (cs_name st) (cn_name n) in
                    ([GBlank; GOb ro; GFl rf; GFn rn], {| cs_obj := objs; cs_file := files; cs_name := names |})
-                 else ([], st) in drun ds hl = Some ds1 /\ s1 = st1) /\
-               Q st1 ds1 /\ d_cur ds1 = (cn_obj n, cn_file n, cn_name n) /\
+                 else ([], st) in drun ds (map (map_line f) hl) = Some ds1 /\ s1 = st1) /\
+               Q st1 ds1 /\ d_cur ds1 = (f (cn_obj n), f (cn_file n), f (cn_name n)) /\
                d_pend ds1 = d_pend ds /\ d_pos ds1 = d_pos ds /\ d_out ds1 = d_out ds).
     { destruct hdr eqn:Eh.
       - destruct (header_run st ds n HQ) as [ds1 [st1 [Hr Hrest]]]. exists ds1, st1. split; [|exact Hrest].
@@ -227,7 +247,7 @@ Proof.
       destruct Hprev as [_ [Hp [Hpa _]]]. injection Hp as Ea El. rewrite Ea.
       apply cg_addr_decodes; assumption. }
     set (ds2 := {| d_tabs := d_tabs ds1; d_cur := d_cur ds1; d_pend := d_pend ds1; d_pos := (cn_addr n, cn_line n);
-                   d_out := EvCost (cn_obj n) (cn_file n) (cn_name n) (cn_addr n) (cn_line n) (cn_cost n) :: d_out ds1 |}).
+                   d_out := EvCost (f (cn_obj n)) (f (cn_file n)) (f (cn_name n)) (cn_addr n) (cn_line n) (cn_cost n) :: d_out ds1 |}).
     assert (Hcost : dstep ds1 (GCost (cg_addr pa (cn_addr n)) (cn_line n) (cn_cost n)) = Some ds2).
     { rewrite (cost_step ds1 _ _ _ addr0 line0 _ _ _ Hc1 Hp1 (eq_trans Hpd1 Hpd)). rewrite Hdec. reflexivity. }
     assert (HQ2 : Q st1 ds2) by exact HQ1.
@@ -262,23 +282,44 @@ Proof.
     + simpl cg_nodes. fold hdr. fold pa.
       destruct (if hdr then _ else _) as [hl s1] eqn:Eif. destruct Hhdr as [Hh Es]. subst s1.
       destruct (cg_edges (cn_out n) st1 (callee_base prev n)) as [el st2] eqn:Ee. simpl in Hrun3, Hrun4.
-      rewrite drun_app, Hh. simpl drun. rewrite Hcost. rewrite drun_app, Hrun3. exact Hrun4.
+      rewrite map_app, drun_app, Hh. rewrite map_cons. change (map_line f (GCost (cg_addr pa (cn_addr n)) (cn_line n) (cn_cost n))) with (GCost (cg_addr pa (cn_addr n)) (cn_line n) (cn_cost n)).
+      simpl drun. rewrite Hcost. rewrite map_app, drun_app, Hrun3. exact Hrun4.
     + rewrite Ho4, Ho3. unfold ds2. simpl d_out. rewrite Ho1.
-      change (expected_events (n :: r)) with (node_events n ++ expected_events r)%list.
+      change (expected_events (map (fnode f) (n :: r)))
+        with (node_events (fnode f n) ++ expected_events (map (fnode f) r))%list.
       rewrite rev_app_distr. unfold node_events. simpl rev.
-      change (edge_events n) with (map (edge_ev n) (cn_out n)).
-      rewrite <- !app_assoc. reflexivity.
+      assert (Hee : edge_events (fnode f n) = map (edge_ev n) (cn_out n)).
+      { unfold edge_events, fnode. simpl. rewrite map_map. reflexivity. }
+      rewrite Hee. simpl. rewrite <- !app_assoc. reflexivity.
+Qed.
+
+Theorem callgrind_decodes_view : forall st u ns, nodes_addr_ok ns -> in_F11 ns = false ->
+  decode (map (map_line f) (cg_lines st u ns)) = Some (expected_events (map (fnode f) ns)).
+Proof.
+  intros st u ns Hok HF. unfold decode, cg_lines.
+  change (drun d_init (map (map_line f) (GHeader "positions: instr line" :: GHeader ("events: " ++ st ++ "(" ++ u ++ ")") ::
+                       cg_nodes ns {| cs_obj := []; cs_file := []; cs_name := [] |} None)))
+    with (drun d_init (map (map_line f) (cg_nodes ns {| cs_obj := []; cs_file := []; cs_name := [] |} None))).
+  assert (HQ : Q {| cs_obj := []; cs_file := []; cs_name := [] |} d_init).
+  { exists [], [], []. split; [reflexivity | split; [apply trel_nil | split; apply trel_nil]]. }
+  destruct (nodes_run ns _ None d_init HQ eq_refl HF Hok) as [ds' [Hrun Hout]].
+  rewrite Hrun, Hout. simpl. rewrite app_nil_r, rev_involutive. reflexivity.
+Qed.
+End View.
+
+Lemma map_line_id : forall l, map_line (fun x => x) l = l.
+Proof. intro l. destruct l; try reflexivity; destruct r; reflexivity. Qed.
+Lemma fnode_id : forall n, fnode (fun x => x) n = n.
+Proof.
+  intro n. destruct n as [o fl nm a l c out]. unfold fnode. simpl. f_equal.
+  induction out as [|e r IH]; [reflexivity|]. simpl. rewrite IH. destruct e; reflexivity.
 Qed.
 
 Theorem callgrind_decodes : forall st u ns, nodes_addr_ok ns -> in_F11 ns = false ->
   decode (cg_lines st u ns) = Some (expected_events ns).
 Proof.
-  intros st u ns Hok HF. unfold decode, cg_lines.
-  change (drun d_init (GHeader "positions: instr line" :: GHeader ("events: " ++ st ++ "(" ++ u ++ ")") ::
-                       cg_nodes ns {| cs_obj := []; cs_file := []; cs_name := [] |} None))
-    with (drun d_init (cg_nodes ns {| cs_obj := []; cs_file := []; cs_name := [] |} None)).
-  assert (HQ : Q {| cs_obj := []; cs_file := []; cs_name := [] |} d_init).
-  { exists [], [], []. split; [reflexivity | split; [apply trel_nil | split; apply trel_nil]]. }
-  destruct (nodes_run ns _ None d_init HQ eq_refl HF Hok) as [ds' [Hrun Hout]].
-  rewrite Hrun, Hout. simpl. rewrite app_nil_r, rev_involutive. reflexivity.
+  intros st u ns Hok HF.
+  pose proof (callgrind_decodes_view (fun x => x) eq_refl st u ns Hok HF) as H.
+  rewrite (map_ext _ (fun l => l) map_line_id), map_id in H.
+  rewrite (map_ext _ (fun n => n) fnode_id), map_id in H. exact H.
 Qed.
